@@ -87,6 +87,8 @@ func runChunk(c *Ctx, spaces []Space, si int, lo, hi uint64) (res chunkResult) {
 	c.space = sp.Name
 	res.Space, res.Lo, res.Hi = si, lo, hi
 	i := lo
+	var slowDur time.Duration
+	var slowIdx uint64
 	func() {
 		// A panic that reaches here escaped the check's own handling: the check
 		// functions recover around library calls where a panic is an allowed
@@ -104,9 +106,14 @@ func runChunk(c *Ctx, spaces []Space, si int, lo, hi uint64) (res chunkResult) {
 				binary.LittleEndian.PutUint64(c.progress[8:16], i)
 				binary.LittleEndian.PutUint64(c.progress[16:24], binary.LittleEndian.Uint64(c.progress[16:24])+1)
 			}
+			t0 := time.Now()
 			sp.Run(c, i)
+			if d := time.Since(t0); d > slowDur {
+				slowDur, slowIdx = d, i
+			}
 		}
 	}()
+	res.SlowNs, res.SlowIdx = int64(slowDur), slowIdx
 	res.Evals, res.Nontrivial, res.Transitions, res.States = c.Evals, c.Nontrivial, c.Transitions, c.States
 	res.Outcomes, res.Notes, res.Info, res.Viols, res.ViolCount = c.Outcomes, c.Notes, c.Info, c.Viols, c.ViolCount
 	res.ClassCounts = c.ClassCounts
@@ -306,6 +313,10 @@ func RunCheck(id, tier string, seed int64) int {
 	res := Result{Outcomes: map[string]uint64{}, Notes: map[string]uint64{}, Info: map[string]string{}, Exhaustive: true}
 	perSpace := make([]struct{ evals, nontrivial, trans, states uint64 }, len(spaces))
 	var crashes []crash
+	slow := make([]struct {
+		ns  int64
+		idx uint64
+	}, len(spaces))
 	var harnessPanics []string
 	next := 0
 	var outOfBudget atomic.Bool
@@ -357,6 +368,9 @@ func RunCheck(id, tier string, seed int64) int {
 		ps.nontrivial += r.Nontrivial
 		ps.trans += r.Transitions
 		ps.states += r.States
+		if r.SlowNs > slow[r.Space].ns {
+			slow[r.Space].ns, slow[r.Space].idx = r.SlowNs, r.SlowIdx
+		}
 		if r.Panic != "" {
 			harnessPanics = append(harnessPanics, fmt.Sprintf("%s[%d]: %s", spaces[r.Space].Name, r.PanicIndex, r.Panic))
 		}
@@ -565,6 +579,11 @@ func RunCheck(id, tier string, seed int64) int {
 	}
 	if newViol > 0 {
 		exit = 1
+	}
+	if os.Getenv("VERIF_CLASSES") != "" {
+		for si, sp := range spaces {
+			fmt.Printf("  space %-50s cases=%d executed=%d slowest case [%d] %.2fs\n", sp.Name, sp.Count, perSpace[si].evals, slow[si].idx, float64(slow[si].ns)/1e9)
+		}
 	}
 	if len(res.ClassCounts) > 0 && os.Getenv("VERIF_CLASSES") != "" {
 		var ks []string
